@@ -232,4 +232,24 @@ open MeasureTheory in
 theorem integral_phi_exp (a : ℝ) : ∫ x : ℝ, φ x * Real.exp (a * x) = Real.exp (a ^ 2 / 2) :=
   Gaussian.integral_phi_exp a
 
+open MeasureTheory in
+/-- ∫ x φ(x) e^{a x} = a e^{a²/2} -/
+theorem integral_x_phi_exp (a : ℝ) :
+    ∫ x : ℝ, x * (φ x * Real.exp (a * x)) = a * Real.exp (a ^ 2 / 2) := Gaussian.integral_x_phi_exp a
+
+open MeasureTheory in
+/-- ∫ x² φ(x) e^{a x} = (1 + a²) e^{a²/2} -/
+theorem integral_x2_phi_exp (a : ℝ) :
+    ∫ x : ℝ, x ^ 2 * (φ x * Real.exp (a * x)) = (1 + a ^ 2) * Real.exp (a ^ 2 / 2) :=
+  Gaussian.integral_x2_phi_exp a
+
+open MeasureTheory in
+/-- **the whole oracle family of the quadrature check** (polynomial of degree ≤ 2 × exponential ×
+density, `a = β·x` in the correspondence):
+∫ (c₀ + c₁x + c₂x²) φ(x) e^{ax} dx = e^{a²/2} (c₀ + c₁a + c₂(1 + a²)) -/
+theorem integral_poly_phi_exp (a c0 c1 c2 : ℝ) :
+    ∫ x : ℝ, (c0 + c1 * x + c2 * x ^ 2) * (φ x * Real.exp (a * x))
+      = Real.exp (a ^ 2 / 2) * (c0 + c1 * a + c2 * (1 + a ^ 2)) :=
+  Gaussian.integral_poly_phi_exp a c0 c1 c2
+
 end C10
